@@ -20,7 +20,7 @@ ASSUMPTIONS = [
     "NumPy backend only; LOBPCG is excluded (float32 scipy delegate with unkeyed randomness, see C17)",
 ]
 
-FAMILIES = ["sa_def", "sa_indef", "sa_def_c", "sa_indef_c", "gen_pairs", "gen_c", "Diagonal", "Diagonal_c", "TriLower", "TriUpper", "Identity"]
+FAMILIES = ["sa_def", "sa_indef", "sa_def_c", "sa_indef_c", "gen_pairs", "gen_c", "Diagonal", "Diagonal_c", "TriLower", "TriUpper", "TriLower_c", "TriUpper_c", "Identity"]
 ALGS = ["omitted", "Auto", "Eigh", "Eig", "Lanczos_n", "Lanczos_n2", "Lanczos_def", "Arnoldi_n", "Arnoldi_n2", "Arnoldi_def", "PowerIteration"]
 
 
@@ -73,12 +73,15 @@ def family(fam, n, seed):
         if fam.endswith("_c"):
             lam = lam * np.exp(1j * np.linspace(0.2, 1.2, n))
         return ops.Diagonal(lam), np.diag(lam), lam
-    if fam in ("TriLower", "TriUpper"):
+    if fam in ("TriLower", "TriUpper", "TriLower_c", "TriUpper_c"):
+        cplx = fam.endswith("_c")
         lam = (m * np.where(np.arange(n) % 3 == 1, -1.0, 1.0))[g.permutation(n)]
-        T = P.ints(g, (n, n), -1, 1) * 0.5
-        T = np.tril(T, -1) if fam == "TriLower" else np.triu(T, 1)
+        if cplx:
+            lam = lam * np.exp(1j * np.linspace(0.1, 2.0, n))
+        T = P.ints(g, (n, n), -1, 1, cplx=cplx) * 0.5
+        T = np.tril(T, -1) if fam.startswith("TriLower") else np.triu(T, 1)
         T = T + np.diag(lam)
-        return ops.Triangular(T, lower=(fam == "TriLower")), T, lam
+        return ops.Triangular(T, lower=fam.startswith("TriLower")), T, lam
     if fam == "Identity":
         return ops.Identity((n, n), np.float64), np.eye(n), np.ones(n)
     raise ValueError(fam)
@@ -135,6 +138,10 @@ def run_case(case, seed):
         dom = lam[np.argmax(np.abs(lam))]
         real_with_complex_dominant = (not np.iscomplexobj(M)) and abs(complex(dom).imag) > 1e-12
         combos = [(1, "LM")] if power else [(k, w) for k in range(1, n + 1) for w in ("LM", "SM")]
+        mods = np.sort(np.abs(lam))
+        slow_power = n > 1 and (mods[-2] / mods[-1])**100 > 1e-4  # Auto's PowerIteration(max_iter=100) cannot converge for this gap
+        if slow_power and algname in ("omitted", "Auto"):
+            combos = [c for c in combos if c != (1, "LM")]
         if real_with_complex_dominant:
             # power iteration (also chosen by Auto for k=1, LM) cannot converge to a complex-conjugate dominant pair of a real matrix
             if power:
@@ -198,7 +205,7 @@ def run_case(case, seed):
         for fn, which in ((L.eigmax, "LM"), (L.eigmin, "SM")):
             if power and which == "SM":
                 continue
-            if real_with_complex_dominant and which == "LM" and algname in ("omitted", "Auto"):
+            if (real_with_complex_dominant or slow_power) and which == "LM" and algname in ("omitted", "Auto"):
                 continue
             ntr += 1
             alg = make_alg(algname, n)
@@ -224,7 +231,7 @@ _DESC = {}
 
 
 def cases(tier, seed):
-    ns = [1, 2, 3, 4, 5] if tier == "quick" else [1, 2, 3, 4, 5, 6, 8]
+    ns = [1, 2, 3, 4, 5] if tier == "quick" else [1, 2, 3, 4, 5, 6, 8, 12, 20]
     out = []
     for fam in FAMILIES:
         for n in ns:
